@@ -443,11 +443,11 @@ theorem getToken_chr {enc : Nat} {v udf : Str} (h : ChrWF enc v udf) {c : Char} 
 
 /-- a line comment: `//` followed by text without a bare newline or a dangling backslash -/
 structure LineCommentWF (w : Str) : Prop where
-  body : ∃ b, w = '/' :: '/' :: b ∧ Units (fun c => c ≠ '\n') (fun x => x ≠ NUL) b
+  body : ∃ b, w = '/' :: '/' :: b ∧ Units (fun c => c ≠ '\n' ∧ c ≠ NUL) (fun x => x ≠ NUL) b
 
 /-- a block comment: `/*`, a body in which `*/` does not occur (also not across its end), `*/` -/
 structure BlockCommentWF (w : Str) : Prop where
-  body : ∃ b, w = '/' :: '*' :: (b ++ ['*', '/']) ∧ hasInfix ['*', '/'] (b ++ ['*']) = false
+  body : ∃ b, w = '/' :: '*' :: (b ++ ['*', '/']) ∧ hasInfix ['*', '/'] (b ++ ['*']) = false ∧ ∀ x ∈ b, x ≠ NUL
 
 theorem comment_ids : longestOp ['/', '/'] = some (lineCommentId, 2) ∧ longestOp ['/', '*'] = some (blockCommentId, 2) := by
   decide +kernel
@@ -514,7 +514,7 @@ theorem getToken_lineComment {w : Str} (h : LineCommentWF w) (r : Str) :
   have hl := longestOp_comment '/' (Or.inl rfl) (b ++ '\n' :: r)
   have hu : Units (fun c => (c == '\n') = false) (fun x => x ≠ NUL) ('/' :: '/' :: b) :=
     Units.plain (by decide) (by decide) (Units.plain (by decide) (by decide)
-      (hb.mono (fun c hc => by simpa using hc) (fun _ h => h)))
+      (hb.mono (fun c hc => by simpa using hc.1) (fun _ h => h)))
   have e : skipToChar '\n' ('/' :: '/' :: (b ++ '\n' :: r)) = .ok ('\n' :: r) := by
     have := skipUntil_units (stop := (· == '\n')) ('\n' :: r) hu
     simp only [List.cons_append] at this
@@ -553,7 +553,7 @@ theorem blockLoop_body (b : Str) (rest : Str) (h : hasInfix ['*', '/'] (b ++ ['*
 
 theorem getToken_blockComment {w : Str} (h : BlockCommentWF w) (r : Str) :
     getToken (w ++ r) = .ok (some (.comment w), 0, r) := by
-  obtain ⟨b, rfl, hb⟩ := h.body
+  obtain ⟨b, rfl, hb, _⟩ := h.body
   simp only [List.cons_append, List.append_assoc]
   apply comment_frame '*' (Or.inr rfl)
   have hl := longestOp_comment '*' (Or.inr rfl) (b ++ (['*', '/'] ++ r))
